@@ -110,7 +110,42 @@ type Analyzer struct {
 	OnInlined func(fn *ssa.Function, args []Term, val Term, st *State)
 	// OnWrite observes binary.PutUintN writes (layout extraction of encoders).
 	OnWrite func(st *State, dst *Slice, width int64, val Term)
+	// AtomNames / BaseNames: symbolic names of entry values (NameFields).
+	AtomNames map[*Atom]string
+	BaseNames map[*Base]string
+	// Ghosts are client-owned integer variables threaded through the Env of the entry function
+	// (synthetic values the program never defines). They are loop-carried like φ-nodes, so the
+	// loop-invariant inference relates them to the program's counters.
+	Ghosts   []*ssa.Phi
+	ghostSet map[ssa.Value]bool
+	// OnBranch observes every conditional edge after its condition has been assumed.
+	OnBranch func(fn *ssa.Function, iff *ssa.If, taken bool, st *State)
+	// OnReturn observes every return of the entry function before return states are merged.
+	OnRet func(fn *ssa.Function, ret *ssa.Return, st *State, val Term)
 }
+
+// NewGhost creates a ghost integer variable; the client sets it with SetGhost in the entry state.
+func (a *Analyzer) NewGhost(name string) *ssa.Phi {
+	g := &ssa.Phi{Comment: "ghost:" + name}
+	a.Ghosts = append(a.Ghosts, g)
+	if a.ghostSet == nil {
+		a.ghostSet = map[ssa.Value]bool{}
+	}
+	a.ghostSet[g] = true
+	return g
+}
+
+func SetGhost(st *State, g *ssa.Phi, l Lin) { st.Env[g] = Int{l} }
+
+func Ghost(st *State, g *ssa.Phi) (Lin, bool) {
+	if v, ok := st.Env[g].(Int); ok {
+		return v.L, true
+	}
+	return Lin{}, false
+}
+
+// Val evaluates an SSA value in st (exported for hooks).
+func (a *Analyzer) Val(st *State, v ssa.Value) Term { return a.val(st, v) }
 
 // BoolSrc describes an opaque boolean produced by a modelled predicate.
 type BoolSrc struct {
@@ -207,6 +242,12 @@ func (a *Analyzer) obl(rule string, fn *ssa.Function, instr ssa.Instruction, sub
 	}
 	top := a.sinks[len(a.sinks)-1]
 	top.obls = append(top.obls, o)
+}
+
+// Oblige records a client obligation through the same sink mechanism as the built-in rules
+// (only the obligations of the converged loop iteration are kept).
+func (a *Analyzer) Oblige(rule string, fn *ssa.Function, instr ssa.Instruction, sub string, ok bool, detail string) {
+	a.obl(rule, fn, instr, sub, ok, func() string { return detail })
 }
 
 func (a *Analyzer) ctxString() string {
@@ -344,7 +385,15 @@ func (a *Analyzer) runFunc(fn *ssa.Function, st *State, args []Term, bindings []
 	a.stack = append(a.stack, fn)
 	defer func() { a.stack = a.stack[:len(a.stack)-1] }()
 	fr := &frame{fn: fn, fi: a.info(fn), depth: depth}
+	oldEnv := st.Env
 	st.Env = map[ssa.Value]Term{}
+	if depth == 0 {
+		for _, g := range a.Ghosts {
+			if v, ok := oldEnv[g]; ok {
+				st.Env[g] = v
+			}
+		}
+	}
 	st.Defers = nil
 	for i, p := range fn.Params {
 		if i < len(args) && args[i] != nil {
@@ -512,6 +561,11 @@ func (a *Analyzer) runLoop1(fr *frame, h *ssa.BasicBlock, body map[*ssa.BasicBlo
 			c.base = e.Base
 		}
 		comps = append(comps, c)
+	}
+	for _, g := range a.Ghosts {
+		if e, ok := E.Env[g].(Int); ok {
+			comps = append(comps, &phiComp{phi: g, kind: 0, alpha: a.freshAtom("φ"+g.Comment, nil), entry: e.L})
+		}
 	}
 	type cand struct {
 		l    Lin
